@@ -45,6 +45,15 @@ pub fn pick_class(rng: &mut Rng, weights: [u64; 4]) -> SizeClass {
     SizeClass::Tiny
 }
 
+thread_local! {
+    static TARGET_OVERRIDE: std::cell::Cell<Option<usize>> = const { std::cell::Cell::new(None) };
+}
+
+/// Pin the constraint count of the next generated scenario (consumed once).
+pub fn set_target_override(t: Option<usize>) {
+    TARGET_OVERRIDE.with(|x| x.set(t));
+}
+
 pub fn target_for(rng: &mut Rng, class: SizeClass) -> usize {
     let k = match class {
         SizeClass::Tiny => 3 + rng.below(4),
@@ -54,11 +63,34 @@ pub fn target_for(rng: &mut Rng, class: SizeClass) -> usize {
     };
     let delta = rng.range(-8, 8);
     let c = (1i64 << k) + delta;
-    c.max(5) as usize
+    c.max(4) as usize
 }
 
 pub fn gen_label(rng: &mut Rng) -> Vec<u8> {
-    match rng.below(6) {
+    match rng.below(9) {
+        6 => {
+            // long labels that share a long prefix with other runs' labels
+            let mut v = b"dusk-network/plonk/circuits/transfer/v".to_vec();
+            v.push(b'0' + rng.below(10) as u8);
+            if rng.chance(1, 2) {
+                let k = 1 + rng.usize(40);
+                v.extend(rng.bytes(k));
+            }
+            v
+        }
+        7 => {
+            // trailing NUL bytes
+            let k = 1 + rng.usize(12);
+            let mut v = if rng.chance(1, 2) { b"dusk".to_vec() } else { rng.bytes(k) };
+            for _ in 0..1 + rng.usize(3) {
+                v.push(0);
+            }
+            v
+        }
+        8 => {
+            let n = 25 + rng.usize(80);
+            rng.bytes(n)
+        }
         0 => Vec::new(),
         1 => b"dusk".to_vec(),
         2 => b"dusk-network".to_vec(),
@@ -86,11 +118,14 @@ pub struct ScenCfg {
 /// Generate a scenario from the `workload` stream, honouring the `drop`
 /// override (ops removed by the minimiser; no re-padding then).
 pub fn gen_scenario(ctx: &mut RunCtx, w: &mut Rng, cfg: &ScenCfg) -> Scenario {
-    let target = target_for(w, cfg.class);
+    let mut target = target_for(w, cfg.class);
+    if let Some(t) = TARGET_OVERRIDE.with(|x| x.take()) {
+        target = t;
+    }
     let gcfg = GenCfg {
         target: if cfg.exact_target { Some(target) } else { None },
         max_ops: cfg.max_ops,
-        heavy: cfg.heavy && target >= 700,
+        heavy: cfg.heavy && (target >= 700 || !cfg.exact_target),
         pi_density: *w.pick(&[0, 1, 4, 8, 16]),
         enabled: default_enabled(w),
         raw: cfg.raw,
